@@ -15,6 +15,7 @@ INVARIANT C03_ShutdownQuiescent
 INVARIANT C03_StallIsReal
 INVARIANT C04_ReleasedWithinLimit
 INVARIANT C04_CachedLimitNotAhead
+INVARIANT C04_MaxFutCacheNotAhead
 INVARIANT C05_LimitRespected
 INVARIANT C05_QueuedInOwnQueue
 INVARIANT C07_PoolWithinBounds
@@ -25,3 +26,5 @@ INVARIANT C31_NoClashAtPrepare
 INVARIANT C26_QueuedFlagMatchesQueue
 INVARIANT C09_ImpliedOutputs
 PROPERTY C09_Lifecycle
+PROPERTY C04_ReleaseStep
+PROPERTY C04_ReleaseWithinFormula
